@@ -333,7 +333,22 @@ def ob_combined(ctx):
         except KeyError:
             ok = True
         ctx.require(ok, "absent-key-did-not-raise-KeyError")
+    # registries are read-only mappings: taking part in a combination does not change a member ...
+    for a in range(P["archives"]):
+        check_mapping(ctx, st, regs[a], [(c[0], c[1]) for c in contents[a]], "member%d-after-combination" % a)
+        for rid, res, nm in union:
+            if not Or([same(rid, c[0]) for c in contents[a]]):
+                ctx.require(not (rid in regs[a]), "member%d-gained-a-key" % a)
+    # ... and a later combination of the same instances is again exactly the union of what it was given
+    comb2 = st_new_combined(base)
+    comb2 << regs[order[0]]
+    check_mapping(ctx, st, comb2, [(c[0], c[1]) for c in contents[order[0]]], "second-combination")
+    check_mapping(ctx, st, comb, [(u[0], u[1]) for u in union], "first-combination-afterwards")
     return True
+
+
+def st_new_combined(base):
+    return base.CombinedRegistry()
 
 
 def part_family(st):
